@@ -16,8 +16,9 @@ BUDGET_S = {'quick': 50, 'thorough': 420}
 TRUSTED = [
     'statements in lean/ParamVerif/Props/C08.lean',
     'spec-side oracle lean/ParamVerif/Refs/Spec.lean (specC08: the expected value of every live link is recomputed from the observed source '
-    'values and the observed refs table; watcher exactness from the observed refs; link state after override / relink / leaving an update '
-    'context; a source update reaches exactly the dependent links)',
+    'values and the observed refs table; watcher exactness from the observed refs after every step; every target value and class default '
+    'satisfies its constraints; link state after override / relink / leaving an update context; a source update reaches exactly the '
+    'dependent links)',
 ] + _c02.TRUSTED[2:]
 ASSUMPTIONS = _c02.ASSUMPTIONS[:3] + [
     'a bound function / rx expression is the opaque function k + sum(dependencies); rx and bind references are the same to the model '
@@ -33,7 +34,8 @@ RULE = ('2-3 source objects, 1-2 targets with 2-6 allow_refs parameters (bounded
         'was propagated into a target; distinct = distinct canonical case')
 COVERAGE_TARGETS = ['ctor:par', 'ctor:fn', 'ctor:rx', 'ctor:nested', 'late:par:ok', 'late:fn:ok', 'late:rx:ok', 'late:nested:ok',
                     'set:ref:free:ok', 'set:ref:linked:ok', 'set:plain:linked:ok', 'srcSet:synced:ok', 'srcSet:sync:ValueError',
-                    'srcSet:quiet:ok', 'ctxEnter:ok', 'ctxExit:ok', 'update:ok', 'setCls:ok']
+                    'srcSet:quiet:ok', 'ctxEnter:ok', 'ctxExit:ok', 'update:ok', 'setCls:ok', 'ctxEnter:form:kw', 'ctxEnter:form:dict', 'ctxEnter:form:pos',
+                    'update:form:kw', 'update:form:dict', 'update:form:pos']
 PROP = 'C08'
 
 run_impl = R.run_impl
@@ -67,9 +69,9 @@ def directed():
             'override': [{'op': 'set', 't': 0, 'p': slot, 'rhs': plain}],
             'relink': [{'op': 'set', 't': 0, 'p': slot, 'rhs': new}],
             'relink-other': [{'op': 'set', 't': 0, 'p': other, 'rhs': R.fn([[2, 1]], 0)}],
-            'update': [{'op': 'update', 't': 0, 'kvs': [[other, R.par(2, 0)], [slot, plain]]}],
-            'ctx': [{'op': 'ctxEnter', 't': 0, 'kvs': [[slot, plain]]}, {'op': 'srcSet', 's': 0, 'i': 0, 'v': 5}, {'op': 'ctxExit'}],
-            'ctx-link': [{'op': 'ctxEnter', 't': 0, 'kvs': [[other, R.par(2, 1)]]}, {'op': 'srcSet', 's': 2, 'i': 1, 'v': 2}, {'op': 'ctxExit'}],
+            'update': [{'op': 'update', 't': 0, 'kvs': [[other, R.par(2, 0)], [slot, plain]], 'form': 'kw'}],
+            'ctx': [{'op': 'ctxEnter', 't': 0, 'kvs': [[slot, plain]], 'form': 'dict'}, {'op': 'srcSet', 's': 0, 'i': 0, 'v': 5}, {'op': 'ctxExit'}],
+            'ctx-link': [{'op': 'ctxEnter', 't': 0, 'kvs': [[other, R.par(2, 1)]], 'form': 'kw'}, {'op': 'srcSet', 's': 2, 'i': 1, 'v': 2}, {'op': 'ctxExit'}],
             'cls': [{'op': 'setCls', 't': 0, 'p': other, 'rhs': R.lit(6)}],
             'src-bad': [{'op': 'srcSet', 's': 0, 'i': 0, 'v': 30}, {'op': 'srcSet', 's': 0, 'i': 0, 'v': 2}],
         }
@@ -110,10 +112,7 @@ def classify(case, impl, fail):
     why = str(fail.get('why', ''))
     if fail.get('kind') != 'counterexample':
         return None
-    for key in ('override-leaves-ref-watcher', 'failed-sync-leaves-valid-links-stale'):
+    for key in ('failed-sync-leaves-valid-links-stale',):
         if why.startswith(f'finding:{key}:'):
             return key
-    # a hard violation: from here on (shrinking, replay) the driver judges this case without the known
-    # findings, so that minimisation cannot turn it into one of them
-    case['strict'] = True
     return None
